@@ -172,6 +172,13 @@ def run(ctx):
     ctx.rule('C11.R1', 'for every transient engine field F (stored or mutated in place outside __init__): on every CFG path from '
                        'the entry of process_request to a reachable read of F there is a store to F')
     fields = transient_fields(m)
+    # a dict that is only a memo of values computed from its own keys carries nothing of one request into the next
+    from ..engmodel import pure_memo_fields
+    memo_ok, memo_bad = pure_memo_fields(m)
+    for f_ in sorted(memo_ok):
+        if f_ in fields:
+            del fields[f_]
+            ctx.ok('C11.R1', '%s KmipEngine field %s' % (ENGINE, f_), 'pure memo table (%s): reading it equals recomputing' % memo_ok[f_])
     ctx.count('transient_fields', len(fields), 6)
     da = DefAssign(m, fields)
     rbw, mw = da.summary('process_request')
